@@ -173,8 +173,12 @@ func ConnectWithConfig(c *ConnConfig) (*Conn, error) {
 
 // Connは、iSCPのコネクションです。
 type Conn struct {
-	wireConnMu            sync.Mutex
-	wireConn              *wire.ClientConn
+	wireConnMu sync.Mutex
+	wireConn   *wire.ClientConn
+	// wireConnGeneration is state.Reconnects() as of the moment wireConn was installed (guarded by wireConnMu).
+	// A stream bound to a wire connection remembers it: an outage counted after that means this wire connection is,
+	// or is about to be, replaced.
+	wireConnGeneration    uint64
 	downstreamIDGenerator *wire.AliasGenerator
 
 	replyCallsChsMu   sync.RWMutex
@@ -271,9 +275,12 @@ func (c *Conn) OpenUpstream(ctx context.Context, sessionID string, opts ...Upstr
 	upconf.SessionID = sessionID
 
 	var resp *message.UpstreamOpenResponse
+	var wireConn *wire.ClientConn // the wire connection that served the open request
+	var wireConnGeneration uint64
 	err := c.send(ctx, func(ctx context.Context) error {
 		c.wireConnMu.Lock()
 		defer c.wireConnMu.Unlock()
+		wireConn, wireConnGeneration = c.wireConn, c.wireConnGeneration
 		r, err := c.wireConn.SendUpstreamOpenRequest(ctx, &message.UpstreamOpenRequest{
 			SessionID:      upconf.SessionID,
 			AckInterval:    *upconf.AckInterval,
@@ -301,9 +308,7 @@ func (c *Conn) OpenUpstream(ctx context.Context, sessionID string, opts ...Upstr
 		}
 	}
 
-	c.wireConnMu.Lock()
-	ch, err := c.wireConn.SubscribeUpstreamChunkAck(ctx, resp.AssignedStreamIDAlias)
-	c.wireConnMu.Unlock()
+	ch, err := wireConn.SubscribeUpstreamChunkAck(ctx, resp.AssignedStreamIDAlias)
 	if err != nil {
 		return nil, errors.Errorf("failed to SubscribeUpstreamChunkAck: %w", err)
 	}
@@ -322,7 +327,7 @@ func (c *Conn) OpenUpstream(ctx context.Context, sessionID string, opts ...Upstr
 		revDataIDAliases: revDataIDAliases,
 		ServerTime:       resp.ServerTime,
 		idAlias:          resp.AssignedStreamIDAlias,
-		wireConn:         c.wireConn,
+		wireConn:         wireConn,
 		sequence:         newSequenceNumberGenerator(0),
 		logger:           c.logger,
 
@@ -338,7 +343,7 @@ func (c *Conn) OpenUpstream(ctx context.Context, sessionID string, opts ...Upstr
 		eventDispatcher:      newEventDispatcher(),
 
 		connState:               c.state,
-		connGeneration:          c.state.Reconnects(),
+		connGeneration:          wireConnGeneration,
 		explicitlyFlushCh:       make(chan (<-chan struct{})),
 		explicitlyFlushResultCh: make(chan error),
 		Config:                  upconf,
@@ -381,8 +386,9 @@ func (c *Conn) OpenUpstream(ctx context.Context, sessionID string, opts ...Upstr
 					return
 				}
 
-				u.connGeneration = c.state.Reconnects()
-				if err := u.resume(c.wireConn); err != nil {
+				newConn, generation := c.currentWireConn()
+				u.connGeneration = generation
+				if err := u.resume(newConn); err != nil {
 					u.logger.Errorf(ctx, "failed to resume upstream: %+v", err)
 					return
 				}
@@ -424,26 +430,26 @@ func (c *Conn) OpenDownstream(ctx context.Context, filters []*message.Downstream
 	}
 	alias := c.downstreamIDGenerator.Next()
 
+	var wireConn *wire.ClientConn // the wire connection that served the open request
+	var wireConnGeneration uint64
 	err = c.send(ctx, func(ctx context.Context) error {
-		c.wireConnMu.Lock()
-		dpsCh, err = c.wireConn.SubscribeDownstreamChunk(ctx, alias, downconf.QoS)
-		c.wireConnMu.Unlock()
+		// every attempt works on exactly one wire connection: the subscriptions and the request belong together
+		wireConn, wireConnGeneration = c.currentWireConn()
+		dpsCh, err = wireConn.SubscribeDownstreamChunk(ctx, alias, downconf.QoS)
 		if err != nil {
 			return errors.Errorf("failed SubscribeDownstreamChunk: %w", err)
 		}
-		c.wireConnMu.Lock()
-		ackCompCh, err = c.wireConn.SubscribeDownstreamChunkAckComplete(ctx, alias)
-		c.wireConnMu.Unlock()
+		ackCompCh, err = wireConn.SubscribeDownstreamChunkAckComplete(ctx, alias)
 		if err != nil {
 			return errors.Errorf("failed SubscribeDownstreamChunkAckComplete: %w", err)
 		}
 
-		metaCh, err = c.subscribeDownstreamMetadata(ctx, alias, filters)
+		metaCh, err = c.subscribeDownstreamMetadata(ctx, wireConn, alias, filters)
 		if err != nil {
 			return errors.Errorf("failed subscribeDownstreamMetadata: %w", err)
 		}
 
-		resp, err = c.wireConn.SendDownstreamOpenRequest(ctx, &message.DownstreamOpenRequest{
+		resp, err = wireConn.SendDownstreamOpenRequest(ctx, &message.DownstreamOpenRequest{
 			DesiredStreamIDAlias: alias,
 			DownstreamFilters:    filters,
 			DataIDAliases:        aliases,
@@ -481,7 +487,7 @@ func (c *Conn) OpenDownstream(ctx context.Context, filters []*message.Downstream
 		lastIssuedUpstreamInfoAlias: 0,
 		lastIssuedAckSequenceNumber: 0,
 		ServerTime:                  resp.ServerTime,
-		wireConn:                    c.wireConn,
+		wireConn:                    wireConn,
 		idAlias:                     alias,
 		dpsCh:                       dpsCh,
 		ackCompCh:                   ackCompCh,
@@ -503,7 +509,7 @@ func (c *Conn) OpenDownstream(ctx context.Context, filters []*message.Downstream
 		logger: c.logger,
 
 		connStatus:     c.state,
-		connGeneration: c.state.Reconnects(),
+		connGeneration: wireConnGeneration,
 		state:          newStreamState(),
 		Config:         downconf,
 	}
@@ -542,8 +548,9 @@ func (c *Conn) OpenDownstream(ctx context.Context, filters []*message.Downstream
 					return
 				}
 
-				down.connGeneration = c.state.Reconnects()
-				if err := down.resume(c); err != nil {
+				newConn, generation := c.currentWireConn()
+				down.connGeneration = generation
+				if err := down.resume(c, newConn); err != nil {
 					down.logger.Errorf(ctx, "Failed to resume downstream: %+v", err)
 					return
 				}
@@ -657,6 +664,7 @@ func (c *Conn) reconnect(ctx context.Context) error {
 		return resErr
 	}
 	c.wireConn = res
+	c.wireConnGeneration = c.state.Reconnects()
 	if !c.state.CompareAndSwap(connStatusReconnecting, connStatusConnected) {
 		// Close was called while the redial was in progress. It is waiting for wireConnMu and will
 		// send Disconnect on, and close, the wire connection installed above.
@@ -813,8 +821,14 @@ func (c *Conn) readDownstreamCallLoop(ctx context.Context) error {
 	}
 }
 
-func (c *Conn) subscribeDownstreamMetadata(ctx context.Context, alias uint32, filters []*message.DownstreamFilter) (<-chan *message.DownstreamMetadata, error) {
-	wireConn := c.wireConn
+// currentWireConn returns the installed wire connection together with its generation.
+func (c *Conn) currentWireConn() (*wire.ClientConn, uint64) {
+	c.wireConnMu.Lock()
+	defer c.wireConnMu.Unlock()
+	return c.wireConn, c.wireConnGeneration
+}
+
+func (c *Conn) subscribeDownstreamMetadata(ctx context.Context, wireConn *wire.ClientConn, alias uint32, filters []*message.DownstreamFilter) (<-chan *message.DownstreamMetadata, error) {
 	orDone := func(inCh <-chan *message.DownstreamMetadata) <-chan *message.DownstreamMetadata {
 		resCh := make(chan *message.DownstreamMetadata)
 		go func() {
